@@ -476,7 +476,8 @@ for _n in (1, 2):
         "S",
         bound="%d terms over {x,y}, objective over any subset of {x,y}, both directions" % _n,
         assumes=["A4", "A5"],
-        covers=["value", "None", "ValueError"],
+        # (one constraint that mentions a variable is always satisfiable: the infeasible answer needs two)
+        covers=["value", "None"] + (["ValueError"] if _n >= 2 else []),
         shards=2 * _n,
         weight=2 * _n,
     )(_optimize(_n))
